@@ -78,6 +78,8 @@ def configs(tier, seed):
                 for a in sorted(rnd.sample(range(0, 16, 4), rnd.randint(1, 3)))]
         out.append({"fam": "c04", "cfg": {"dw": 8, "aw": 4, "align": 0, "regs": regs, "ov": None,
                                           "probe": True, "late": bool(i % 2)}})
+    for n in (1, 2, 3):
+        out.append({"fam": "arbmap", "cfg": {"n": n}})
     # decoders: after elaboration the public API must behave as on a twin that was never elaborated
     for kind in ("csrdec", "wbdec"):
         for i in range(3):
@@ -107,9 +109,27 @@ def _bridge_maker(cfg):
     return make
 
 
+def _arbmap_maker(cfg):
+    """An arbiter whose shared bus has been given a memory map (optional metadata), initiators without one."""
+    from amaranth_soc import wishbone
+    from amaranth_soc.memory import MemoryMap
+
+    def make():
+        arb = wishbone.Arbiter(addr_width=4, data_width=16, granularity=8)
+        arb.bus.memory_map = MemoryMap(addr_width=5, data_width=8)
+        intrs = [wishbone.Interface(addr_width=4, data_width=16, granularity=(8 if i % 2 == 0 else 16), path=(f"i{i}",))
+                 for i in range(cfg["n"])]
+        for it in intrs:
+            arb.add(it)
+        return Harness(arb, flat_ports(arb) + flat_ports(*intrs, env="out"), arb=arb, intrs=intrs)
+    return make
+
+
 def maker(item):
     if item["fam"] == "bridge":
         return _bridge_maker(item["cfg"])
+    if item["fam"] == "arbmap":
+        return _arbmap_maker(item["cfg"])
     mod = importlib.import_module(f"vt.props.{item['fam']}")
     return mod.maker(item["cfg"])
 
@@ -126,14 +146,23 @@ def is_refusal(exc):
 
 
 def _maps(h):
-    """(path, start, end) of every resource of every memory map reachable from the harness objects."""
+    """Public metadata reachable from the harness objects: for every bus interface whether it has a memory map,
+    and (path, start, end, width) of every resource of every map."""
     out = []
     seen = set()
+    objs = []
     for v in list(vars(h).values()) + [h.top]:
-        for attr in ("bus", "wb_bus", "csr_bus"):
-            b = getattr(v, attr, None)
+        objs.extend(v if isinstance(v, (list, tuple)) else [v])
+    for v in objs:
+        cands = [v] + [getattr(v, a, None) for a in ("bus", "wb_bus", "csr_bus")]
+        for b in cands:
+            if b is None or not hasattr(type(b), "memory_map") and not hasattr(b, "memory_map"):
+                continue
             try:
                 mm = b.memory_map
+            except AttributeError:
+                out.append(("no-map", type(b).__name__))
+                continue
             except Exception:
                 continue
             if id(mm) in seen:
